@@ -140,6 +140,38 @@ def string_program(rnd):
     return Module(mod)
 
 
+LONG_SHAPES = [(100, 13, 130, 10, "0123456789"), (104, 10, 130, 8, "abcdefghijklmnopqrstuvwxyz"), (100, 26, 130, 20, "0123456789"),
+               (100, 39, 130, 30, "01234é6789"), (100, 52, 130, 40, "0123456789"), (100, 91, 130, 70, "0123456789"),
+               (64, 8, 128, 4, "abcdefgh"), (64, 16, 128, 8, "abcdefgh"), (64, 17, 136, 8, "abcdefgé"), (5, 3, 3, 5, "z"),
+               (64, 4, 128, 2, "abcdefgh"), (96, 171, 256, 64, "0123456789abcdef0123456789ABCDEF"), (128, 513, 513, 128, "q")]
+
+
+def long_string_program(rnd):
+    """C09: equal contents of 15 .. 65 000 characters built by routes that never share a buffer (different chunkings in different
+    loops, a slice of something longer), compared and used as keys: the length of a string is no reason to treat it differently"""
+    c1, n1, c2, n2, period = rnd.choice(LONG_SHAPES)
+    total = c1 * n1
+    assert total == c2 * n2 and c1 % len(period) == 0 and c2 % len(period) == 0
+    ch1, ch2 = period * (c1 // len(period)), period * (c2 // len(period))
+    mod = [Let("a", Str("")), For("i", Invoke(Num(n1), "times", []), Block([ExprSt(Assign("a", Bin("+", Var("a"), Str(ch1))))])),
+           Let("b", Str("")), Let("j", Num(0)),
+           While(Bin("<", Var("j"), Num(n2)), Block([ExprSt(Assign("b", Bin("+", Var("b"), Str(ch2)))), ExprSt(Assign("j", Bin("+", Var("j"), Num(1))))])),
+           Let("c", Invoke(Bin("+", Var("a"), Str("#tail")), "slice", [Num(0), Num(total)])),
+           Let("d", Bin("+", Var("a"), Str("#")))]
+    if rnd.random() < 0.5:
+        mod.append(Fn("churn", [], Block([Let("t", Bin("+", Var("b"), Str(""))), Let("junk", List([Var("t"), Str("zz")])), Return(Invoke(Var("t"), "len", []))])))
+        mod.append(Print(Call(Var("churn"), [])))
+    mod.append(Print(Invoke(Var("a"), "len", []), Invoke(Var("b"), "len", []), Invoke(Var("c"), "len", []), Bin("==", Var("a"), Var("b")), Bin("!=", Var("a"), Var("b")),
+                     Bin("==", Var("b"), Var("c")), Bin("==", Var("a"), Var("d")), Bin("==", Bin("+", Var("b"), Str("#")), Var("d"))))
+    mod.append(Let("tbl", MapLit([])))
+    mod.append(ExprSt(IndexSet(Var("tbl"), Var("a"), Num(1))))
+    mod.append(Print(Invoke(Var("tbl"), "has", [Var("b")]), Invoke(Var("tbl"), "get", [Var("c")]), Invoke(Var("tbl"), "has", [Var("d")]), Invoke(Var("tbl"), "len", [])))
+    mod.append(ExprSt(IndexSet(Var("tbl"), Var("b"), Num(2))))
+    mod.append(ExprSt(IndexSet(Var("tbl"), Var("d"), Num(3))))
+    mod.append(Print(Invoke(Var("tbl"), "len", []), Index(Var("tbl"), Var("a")), Index(Var("tbl"), Bin("+", Var("c"), Str("#")))))
+    return Module(mod)
+
+
 def late_name_program(rnd):
     """C09: a field / method name first interned while a module is compiled must still find its entry when an equal
     name is interned much later (a module imported after many collections reads the field from outside)."""
@@ -194,7 +226,8 @@ def run(pid, tier, replay=None):
         binary_nb = vlib.build_harness(nan_boxing=True)
     n = {"C05": 400, "C09": 120, "C20": 100}[pid] if tier == "quick" else {"C05": 5000, "C09": 4000, "C20": 1500}[pid]
     if pid == "C09":
-        progs = [(f"str{i}", string_program(rnd)) for i in range(n)] + [(f"late{i}", late_name_program(rnd)) for i in range(n // 4)]
+        progs = [(f"str{i}", string_program(rnd)) for i in range(n)] + [(f"late{i}", late_name_program(rnd)) for i in range(n // 4)] + \
+                [(f"long{i}", long_string_program(rnd)) for i in range(n // 5)]
     else:
         progs = lang_corpus(rnd, n)
     cases = []
@@ -355,7 +388,7 @@ def run(pid, tier, replay=None):
         loops = []
         for i in range(60 if tier == "quick" else 400):
             k = rnd.randint(5, 40)
-            body = rnd.choice(['let t = [i, i + 1]; let s = "v" + i.str(); keep = s;', 'let o = K(); o.x = [i]; keep = o;',
+            bodies = (['let t = [i, i + 1]; let s = "v" + i.str(); keep = s;', 'let o = K(); o.x = [i]; keep = o;',
                                'let f = || i; keep = f;', 'let t = ("a" + i.str(), i); keep = t[0];', 'keep = "${i}-${keep == nil}";',
                                # the paths on which something could be left behind: errors (caught) from natives, from callbacks and from
                                # the interpreter, fibers that come and go, channels, classes made at run time, growing and shrinking collections
@@ -367,7 +400,12 @@ def run(pid, tier, replay=None):
                                'keep = [3, 1, 2, i].sort(|a, b| a - b).len();', 'keep = i.times().map(|x| [x]).filter(|x| x.len() > 0).take(3).list().len();',
                                'let l = []; for j in 9.times() { l.push([j]); } for j in 9.times() { l.pop(); } keep = l.len();',
                                'let m = {}; for j in 9.times() { m[j] = "v" + j.str(); } for j in 9.times() { m.remove(j); } keep = m.len();',
+                               # natives that root temporaries and then fail (their callback raises), caught: nothing stays rooted
+                               'try { [1, 2].iter().each(|x| x.zz); } catch e { keep = 1; }', 'try { [[i], [i]].iter().reduce(0, |a, x| a.zz); } catch e { keep = 2; }',
+                               'try { [[i]].iter().zip([[i]].iter()).each(|p| p.zz); } catch e { keep = 3; }', 'try { [[i], [i, i]].iter().map(|x| x.zz).into(List.collect); } catch e { keep = 4; }',
+                               'try { [[i]].iter().filter(|x| x.zz).list(); } catch e { keep = 5; }', 'try { {"a": [i]}.iter().each(|kv| kv.zz); } catch e { keep = 6; }',
                                'keep = mk(i).who();', 'keep = "a,b,c".split(",").map(|x| x + i.str()).list().len();', 'keep = "x${[i]}y${(i, i)}z".len() > 0;'])
+            body = bodies[i % len(bodies)]          # every body at least twice in the quick tier
             for mult in (1, 2, 4):
                 src = (f"class K {{ init() {{ self.x = nil; }} }}\nfn W(ch, i) {{ ch <- i; }}\n"
                        f"fn mk(i) {{ class Local {{ init() {{ self.i = i; }} who() {{ return self.i; }} }} return Local(); }}\n"
@@ -379,8 +417,16 @@ def run(pid, tier, replay=None):
             r = res[c["id"]]
             judged += 1
             post = json.loads(r["post"]) if isinstance(r.get("post"), str) else (r.get("post") or {})
-            by[c["_k"]][c["_m"]] = (post.get("bytes"), c["_src"], r["status"])
+            by[c["_k"]][c["_m"]] = (post.get("bytes"), c["_src"], r["status"], post.get("temp_roots"))
+            if r["status"] != "ok" or not r.get("stdout", "").endswith("done\n"):
+                # the loop is a valid program that ends normally: if it does not, nothing can be said about its memory
+                v.violation(f"loop program does not end normally: {r['status']} {str(r.get('panic'))[:200]} {r.get('stderr', '')[-200:]!r}",
+                            {"source": c["_src"], "status": r["status"], "panic": r.get("panic")})
         for k, d in by.items():
+            # the collector's list of temporary roots (what natives pin while they run) is as long after 4k iterations as after k
+            troots = {m: d[m][3] for m in d if d[m][3] is not None}
+            if len(set(troots.values())) > 1:
+                v.violation(f"temporary roots left behind grow with the loop count: {troots}", {"source": d[1][1], "temp_roots": troots})
             sizes = {m: d[m][0] for m in d}
             vals = [x for x in sizes.values() if x is not None]
             # strings built from the loop counter have different lengths; allow the keep value itself to differ by < 64 bytes
